@@ -19,6 +19,9 @@ HANDLER = "block_handler::BlockHandler::<Endpoint>::"
 
 
 def check(env, rep, tier):
+    include(rep, env, tier, "c07", ("C07.6",), "C11.7",
+            "'every error is renderable as a 4.xx/5.xx reply, never a panic': rendering puts the diagnostic text on the reply whole "
+            "(no cutting of peer-influenced text at a byte count, which panics inside a multi-byte character)")
     include(rep, env, tier, "c09", ("C09.2",), "C11.5",
             "'a block far beyond the buffered length is rejected': the offset handed to the bounded splice is the true byte offset "
             "num x size computed at full width (a narrowed product wraps a far block back into the accepted window)")
@@ -86,7 +89,16 @@ def check(env, rep, tier):
             rep.ob("C11.2", "constant", const is not None and 0 < const <= 16384,
                    "MAXIMUM_UNCOMMITTED_BUFFER_RESERVE_LENGTH is %s, expected at most 16384" % const)
             seen = 0
+            # private helpers extending_splice was split into count as the splice itself, as long as nobody else calls them
+            inside = set(b_["path"] for b_ in reachable(prog, es))
+            for hp in sorted(inside - {es["path"]}):
+                callers_ = [b_["path"] for b_ in prog.bodies.values() if not b_.get("promoted") and "::tests::" not in b_["id"] and b_["path"] not in inside
+                            and any(bb_["term"]["k"] == "call" and not bb_.get("cleanup") and ((bb_["term"].get("resolved") or {}).get("path") == hp) for bb_ in b_["blocks"])]
+                if callers_:
+                    inside.discard(hp)
             for fn, path, site, s, args in grow_calls:
+                if fn in inside:
+                    fn = "block_handler::extending_splice"
                 tgt = args[0] if args else None
                 from_entry = isinstance(tgt, RefV) and isinstance(tgt.place.key, tuple) and tgt.place.key[0] == "h" \
                     and str(tgt.place.key[1]).startswith("entry")
@@ -122,6 +134,8 @@ def check(env, rep, tier):
             dst = args[0]
 
             def hook2(I_, s, call, cbody):
+                if cbody is not None and cbody.get("path", "").startswith("block_handler::"):
+                    return      # a helper of the splice: what it does to the buffer is seen inside it
                 for a in call.args:
                     if isinstance(a, RefV) and a.mut and isinstance(dst, RefV) and a.place.key == dst.place.key:
                         s.ghost[("inj", "wrote")] = True
